@@ -27,14 +27,127 @@ def macro_instances(src, macro):
     return out
 
 
+
+# ---- translator for the integer branch of convert_type_fundamental (C06) -------------------------------
+ATOMS = [(r"is_signed_v<T_To>\s*==\s*is_signed_v<T_From>", "signEq"), (r"sizeof\(T_To\)\s*>=\s*sizeof\(T_From\)", "toGeFrom"),
+         (r"sizeof\(T_To\)\s*<=\s*sizeof\(T_From\)", "toLeFrom"), (r"sizeof\(T_To\)\s*<\s*sizeof\(T_From\)", "toLtFrom"),
+         (r"is_unsigned_v<T_To>", "toUns"), (r"is_unsigned_v<T_From>", "frUns"), (r"is_signed_v<T_To>", "toSig"), (r"is_signed_v<T_From>", "frSig")]
+CHECKS = [(r"from\s*<=\s*numeric_limits<T_To>::max\(\)", "leToMax"), (r"from\s*>=\s*numeric_limits<T_To>::min\(\)", "geToMin"),
+          (r"from\s*>=\s*0", "geZero"), (r"from\s*<=\s*static_cast<T_From>\(to_max\)", "leToMaxAsFrom")]
+
+
+def _strip_line_comments(t):
+    return re.sub(r"//[^\n]*", "", t)
+
+
+def _match_brace(t, i):
+    depth = 0
+    for j in range(i, len(t)):
+        if t[j] == "{":
+            depth += 1
+        elif t[j] == "}":
+            depth -= 1
+            if depth == 0:
+                return j
+    raise ValueError("unbalanced")
+
+
+def _parse_cond(c):
+    parts = [x.strip() for x in c.split("&&")]
+    out = []
+    for part in parts:
+        for pat, name in ATOMS:
+            if re.fullmatch(pat, part):
+                out.append(name)
+                break
+        else:
+            raise ValueError("unknown condition: " + part)
+    return out
+
+
+def _parse_checks(body):
+    body = body.strip()
+    names = []
+    # allowed statements: `auto to_max = numeric_limits<T_To>::max();` and dynamic_check(<cond>, err_msg);
+    stmts = [x.strip() for x in body.split(";") if x.strip()]
+    for st in stmts:
+        if re.fullmatch(r"auto\s+to_max\s*=\s*numeric_limits<T_To>::max\(\)", st):
+            continue
+        m = re.fullmatch(r"dynamic_check\((.*),\s*err_msg\)", st, flags=re.S)
+        if not m:
+            raise ValueError("unknown statement: " + st)
+        for pat, name in CHECKS:
+            if re.fullmatch(pat, m.group(1).strip()):
+                names.append(name)
+                break
+        else:
+            raise ValueError("unknown check: " + m.group(1))
+    return names
+
+
+def _parse_chain(t):
+    """`if constexpr (C) {B} else if constexpr (C) {B} ... [else {B}]` -> [(atoms, body_text)]; else has atoms []"""
+    t = t.strip()
+    out = []
+    while t:
+        m = re.match(r"(?:else\s+)?if\s+constexpr\s*\(", t)
+        if m:
+            depth, j = 1, m.end()
+            while depth:
+                depth += {"(": 1, ")": -1}.get(t[j], 0)
+                j += 1
+            cond = t[m.end():j - 1]
+            b0 = t.index("{", j)
+            b1 = _match_brace(t, b0)
+            out.append((_parse_cond(" ".join(cond.split())), t[b0 + 1:b1]))
+            t = t[b1 + 1:].strip()
+            continue
+        m = re.match(r"else\s*\{", t)
+        if m:
+            b0 = t.index("{")
+            b1 = _match_brace(t, b0)
+            out.append(([], t[b0 + 1:b1]))
+            t = t[b1 + 1:].strip()
+            continue
+        raise ValueError("unexpected text in chain: " + t[:60])
+    return out
+
+
+def conv_chain_lean(conv_src):
+    """Lean term of type `Rlbox.ConvChain.Chain` for the integer branch, or an error marker"""
+    try:
+        i = conv_src.index("else if_constexpr_named(cond5")
+        j = conv_src.index("to = static_cast<T_To>(from);", i)
+        blk = _strip_line_comments(conv_src[i:j])
+        blk = blk[blk.index("if constexpr"):]
+        top = _parse_chain(blk)
+        items = []
+        for atoms, body in top:
+            if "if constexpr" in body:
+                sub = _parse_chain(body)
+                subs = ", ".join("([" + ", ".join("." + a for a in sa) + "], [" + ", ".join("." + c for c in _parse_checks(sb)) + "])" for sa, sb in sub)
+                items.append("([" + ", ".join("." + a for a in atoms) + "], .sub [" + subs + "])")
+            else:
+                items.append("([" + ", ".join("." + a for a in atoms) + "], .checks [" + ", ".join("." + c for c in _parse_checks(body)) + "])")
+        return "[" + ",\n   ".join(items) + "]", None
+    except (ValueError, IndexError) as e:
+        return "[]", str(e)
+
+
 def generate(repo):
     rl = _strip_comments(_read(repo, "rlbox.hpp"))
     sb = _strip_comments(_read(repo, "rlbox_sandbox.hpp"))
     noop = _strip_comments(_read(repo, "rlbox_noop_sandbox.hpp"))
     dyl = _strip_comments(_read(repo, "rlbox_dylib_sandbox.hpp"))
     L = []
+    L.append("import RlboxModel.ConvChain")
     L.append("/-! GENERATED by gen/extract_facts.py from /repo/code/include on every run. Do not edit. -/")
     L.append("namespace Rlbox.Generated")
+    L.append("open Rlbox.ConvChain")
+    chain, err = conv_chain_lean(_read(repo, "rlbox_conversion.hpp"))
+    L.append("/-- the integer branch of `convert_type_fundamental`, TRANSLATED from rlbox_conversion.hpp: the `if constexpr` chain with")
+    L.append("its conditions and the dynamic checks of every branch" + (" (TRANSLATION FAILED: " + err.replace('"', "'")[:120] + ")" if err else "") + " -/")
+    L.append("def convChain : Chain :=\n  " + chain)
 
     def maxcb(src):
         m = re.search(r"MAX_CALLBACKS\s*=\s*(\d+)", src)
